@@ -210,8 +210,11 @@ class Real:
         R.clear_generator_registrations()
 
     def reset(self):
-        self.R.clear_language_registrations()
-        self.R.clear_generator_registrations()
+        # the harness's own reset writes the three module globals directly; the implementation's clear functions are operations
+        # under test ('cl', 'cg') and must not be trusted to re-establish the initial state
+        self.R.languages = None
+        self.R.generators = None
+        self.R.metamodels = {}
 
     def snapshot(self):
         R = self.R
